@@ -561,7 +561,6 @@ func checkRouteClash(c *Ctx, rule string, gen *packages.Package) {
 		"nothing refuses two operations that share a router slot (method + cleaned path with parameter names erased, e.g. GET /items and GET /items/, or GET /items/{id} and GET /items/{itemId}/): the handler registered last serves both and one operation is unreachable")
 }
 
-
 // packageRegexpLiteral: e is a package-level variable initialised by regexp.MustCompile(<literal>).
 func packageRegexpLiteral(pk *packages.Package, e ast.Expr) (string, bool) {
 	id, ok := ast.Unparen(e).(*ast.Ident)
